@@ -21,12 +21,7 @@ open MetadorModel.Gen.PatchSteps
 
 /-! ## constants and file names -/
 
-theorem gen_constants : USER_BLOCK_SIZE = 1024 ∧ MANIFEST_EXT = mfExt := ⟨rfl, rfl⟩
-
-/-- the sidecar is named after the **container file** (one manifest per container, so that writing the
-manifest of a new patch never touches the manifest of a committed one) -/
-theorem gen_manifest_filepath (f : Name) : IH5MFRecord._manifest_filepath f = manifestFile f := by
-  simp [IH5MFRecord._manifest_filepath, manifestFile, gen_constants.2]
+theorem gen_constants : USER_BLOCK_SIZE = 1024 := rfl
 
 /-! ## guards -/
 
